@@ -58,19 +58,29 @@ for a in all_texts:
             if st is not None and tuple(st[:2]) != (ins, rem):
                 bad("bounded::C39.stats", "old %r new %r" % (a, b), repr(st), repr((ins, rem)))
             # a perturbed old text: conflict, or (if the touched line is outside every hunk's range) a result that only differs there
-            if a and ctx == 1 and len(a) <= 3:
+            if a and len(a) <= 3:
+                covered = set()
+                for h in p.hunks:
+                    covered.update(range(h.orig_pos - 1, h.orig_pos - 1 + h.orig_range))
                 for i in range(len(a)):
-                    a2 = list(a); a2[i] = b"Z\n"
+                    a2 = list(a); a2[i] = b"Z\n" if a[i].endswith(b"\n") else b"Z"
+                    n += 1
                     try:
                         got2 = list(patches.iter_patched_from_hunks(a2, p.hunks))
                     except patches.PatchConflict:
+                        if i not in covered:
+                            bad("bounded::C39.conflict", "old %r perturbed at %d (outside every hunk), diff to %r context %d" % (a, i, b, ctx),
+                                "PatchConflict", "applies: the line is not part of any hunk")
                         continue
                     except Exception as e:  # noqa
                         bad("bounded::C39.conflict", "old %r perturbed at %d" % (a, i), repr(e), "PatchConflict or an untouched line")
                         continue
-                    n += 1
-                    if b"Z\n" not in got2:
-                        bad("bounded::C39.conflict", "old %r perturbed at %d, diff to %r" % (a, i, b), repr(got2), "PatchConflict (the changed line was consumed silently)")
+                    if i in covered:
+                        # the patch names this line (as context or as a removed line) and the text disagrees: must be refused
+                        bad("bounded::C39.conflict", "old %r perturbed at line %d, which the patch lists; diff to %r context %d" % (a, i, b, ctx),
+                            repr(got2), "PatchConflict (a mismatching context/removed line was accepted silently)")
+                    elif a2[i] not in got2:
+                        bad("bounded::C39.conflict", "old %r perturbed at %d, diff to %r" % (a, i, b), repr(got2), "the untouched line carried over")
             if len(samples) < 2 and len(a) == 2 and len(b) == 3:
                 samples.append({"old": repr(a), "new": repr(b), "context": ctx, "diff": d.decode()})
 print(json.dumps({"evaluations": n, "distinct_nontrivial": nontrivial, "exhaustive": True,
